@@ -741,6 +741,17 @@ func c04FileProbe(g *Gen) {
 				msg = fmt.Sprintf("acc.String / acc.Write / saved file differ (%v %v %v; %d / %d / %d bytes)", err, werr, rerr, len(str), buf.Len(), len(data))
 				return
 			}
+			// a destination that fails part-way must make acc.Write report an error: a cut-off script may
+			// well load, to a different chain
+			for _, k := range []int{0, len(str) / 2, len(str) - 1} {
+				if k < 0 || k >= len(str) {
+					continue
+				}
+				if e := acc.Write(&failAfter{n: k}, prog); e == nil {
+					msg = fmt.Sprintf("acc.Write reports success although the writer failed after %d of %d bytes", k, len(str))
+					return
+				}
+			}
 			back, err := acc.LoadFile(path)
 			if err != nil {
 				msg = "load: " + err.Error()
